@@ -93,7 +93,7 @@ __CPROVER_requires(__CPROVER_is_fresh(self, sizeof(*self)))
 __CPROVER_assigns()
 __CPROVER_ensures(__CPROVER_return_value == self->StateSize)
 //@end
-//@harness h_getNumberOfStates enforce=SC_getNumberOfStates props=C07 reach=1 timeout=60
+//@harness h_getNumberOfStates enforce=SC_getNumberOfStates props=C07 reach=1 timeout=60 min_obl=33
 void h_getNumberOfStates(void)
 {
   struct StatesClassification *p;
@@ -109,7 +109,7 @@ __CPROVER_requires(__CPROVER_is_fresh(self, sizeof(*self)) && SCN->size <= VEC_M
 __CPROVER_assigns()
 __CPROVER_ensures(__CPROVER_return_value.number >= 0 && (unsigned long)__CPROVER_return_value.number == SCN->size)
 //@end
-//@harness h_NumberOfBlocks enforce=SC_NumberOfBlocks props=C07 reach=1 timeout=60
+//@harness h_NumberOfBlocks enforce=SC_NumberOfBlocks props=C07 reach=1 timeout=60 min_obl=35
 void h_NumberOfBlocks(void)
 {
   struct StatesClassification *p;
@@ -127,7 +127,7 @@ __CPROVER_assigns(VERIF_thrown, self->StatesContainer.scratch)
 __CPROVER_ensures(VERIF_thrown == (self->Status < Computed))
 __CPROVER_ensures((!VERIF_thrown && (unsigned long)in.number == SCN->gblock) ==> __CPROVER_return_value == SCN->gvec.size)
 //@end
-//@harness h_getBlockSize enforce=SC_getBlockSize props=C07,C17 reach=3 timeout=60
+//@harness h_getBlockSize enforce=SC_getBlockSize props=C07,C17 reach=3 timeout=60 min_obl=100
 void h_getBlockSize(void)
 {
   struct StatesClassification *p; BlockNumber b;
@@ -149,7 +149,7 @@ __CPROVER_ensures((self->Status >= Computed && in.number == BQ->gkey.number) ==>
 __CPROVER_ensures((self->Status >= Computed && in.number != BQ->gkey.number) ==> (VERIF_thrown == !g_other_present))
 __CPROVER_ensures((!VERIF_thrown && in.number == BQ->gkey.number) ==> (__CPROVER_return_value.hash == BQ->g.second.hash && __CPROVER_return_value.amount == BQ->g.second.amount))
 //@end
-//@harness h_getQuantumNumbers_b enforce=SC_getQuantumNumbers_b props=C07 reach=3 timeout=60
+//@harness h_getQuantumNumbers_b enforce=SC_getQuantumNumbers_b props=C07 reach=3 timeout=60 min_obl=172
 void h_getQuantumNumbers_b(void)
 {
   struct StatesClassification *p; BlockNumber b;
@@ -172,7 +172,7 @@ __CPROVER_assigns(VERIF_thrown, self->StateBlockIndex.scratch, self->BlockToQuan
 __CPROVER_ensures(VERIF_thrown == (self->Status < Computed || in.w >= self->StateSize))
 __CPROVER_ensures(!VERIF_thrown ==> (__CPROVER_return_value.hash == BQ->g.second.hash && __CPROVER_return_value.amount == BQ->g.second.amount))
 //@end
-//@harness h_getQuantumNumbers_f enforce=SC_getQuantumNumbers_f props=C07,C17 reach=3 timeout=60
+//@harness h_getQuantumNumbers_f enforce=SC_getQuantumNumbers_f props=C07,C17 reach=3 timeout=60 min_obl=209
 void h_getQuantumNumbers_f(void)
 {
   struct StatesClassification *p; Bitset s;
@@ -197,7 +197,7 @@ __CPROVER_requires(__CPROVER_is_fresh(self, sizeof(*self)))
 __CPROVER_assigns()
 __CPROVER_ensures(__CPROVER_return_value == &self->Operations)
 //@end
-//@harness h_getOperations enforce=Symmetrizer_getOperations props=C07 reach=1 timeout=60
+//@harness h_getOperations enforce=Symmetrizer_getOperations props=C07 reach=1 timeout=60 min_obl=22
 void h_getOperations(void)
 {
   struct Symmetrizer *s;
